@@ -61,6 +61,14 @@ pub struct RCfg {
     pub latin1: bool,
     /// white space around `=` inside the XML declaration
     pub decl_eq_space: bool,
+    /// elements declare two prefixes (or the default namespace and a prefix) for ONE namespace, so
+    /// that different elements spell the same namespace differently (every end tag repeats its
+    /// own start tag)
+    pub twin_prefixes: bool,
+    /// a prefix other than `xml` is bound to the XML namespace (Namespaces in XML forbids that, xot
+    /// accepts it: C03:reserved-prefix-or-namespace-rebound-accepted) and spells `xml:id` / `xml:lang`
+    /// attributes; also the legal redundant declaration `xmlns:xml="http://www.w3.org/XML/1998/namespace"`
+    pub xml_alias: bool,
     pub max_depth: usize,
 }
 
@@ -74,11 +82,13 @@ impl RCfg {
             lone_empty_cdata: rng.chance(1, 12),
             latin1: false,
             decl_eq_space: true,
+            twin_prefixes: rng.chance(2, 5),
+            xml_alias: rng.chance(1, 3),
             max_depth: 1 + rng.below(3),
         }
     }
     pub fn plain() -> RCfg {
-        RCfg { cdata_cr: false, uri_refs: false, xmlid_spaces: false, local_xmlns: false, lone_empty_cdata: false, latin1: false, decl_eq_space: true, max_depth: 2 }
+        RCfg { cdata_cr: false, uri_refs: false, xmlid_spaces: false, local_xmlns: false, lone_empty_cdata: false, latin1: false, decl_eq_space: true, twin_prefixes: false, xml_alias: false, max_depth: 2 }
     }
 }
 
@@ -91,6 +101,11 @@ pub struct Rendered {
     pub tag_points: Vec<TagPoint>,
     /// (start, end) of every written end tag `</q>`
     pub close_tags: Vec<(usize, usize)>,
+    /// (start, end, other spelling) of end tags whose element name has another spelling in scope:
+    /// the same expanded name through another prefix (or the default namespace)
+    pub close_alts: Vec<(usize, usize, String)>,
+    /// normalised values of the xml:id attributes that are spelled with another prefix than `xml`
+    pub alias_ids: Vec<String>,
     /// offsets in character data outside CDATA, between pieces
     pub text_points: Vec<usize>,
     /// offsets inside attribute values, between pieces
@@ -145,6 +160,8 @@ pub struct R<'a> {
     pub spans: Vec<ExpSpan>,
     pub tag_points: Vec<TagPoint>,
     pub close_tags: Vec<(usize, usize)>,
+    pub close_alts: Vec<(usize, usize, String)>,
+    pub alias_ids: Vec<String>,
     pub text_points: Vec<usize>,
     pub attr_points: Vec<usize>,
     pub decl_points: Vec<usize>,
@@ -163,6 +180,8 @@ impl<'a> R<'a> {
             spans: vec![],
             tag_points: vec![],
             close_tags: vec![],
+            close_alts: vec![],
+            alias_ids: vec![],
             text_points: vec![],
             attr_points: vec![],
             decl_points: vec![],
